@@ -1,0 +1,39 @@
+//go:build verif
+
+// Contracts for package floodsub, checked by /verif (bfvc). Comment-only.
+package floodsub
+
+// mtx guards the tables. Every local subscription registered under a channel is a subscription to
+// exactly that channel.
+//@ guards FloodSub.mtx: peers, channels, peerChannels, incSessions
+//@ lockinv FloodSub.mtx: self.channels != nil
+//@ lockinv FloodSub.mtx: forall c string, sb *subscription trigger dom(self.channels[c], sb) :: (c in self.channels) && (sb in self.channels[c]) ==> sb != nil && sb.channelID == c
+
+//@ lockinv FloodSub.mtx: forall c string, d string trigger dom(self.channels, c), dom(self.channels, d) :: c != d && (c in self.channels) && (d in self.channels) && self.channels[c] != nil ==> self.channels[c] != self.channels[d]
+
+// ---- C27 ----
+// A received publish packet reaches the router's delivery/forwarding step only if it is authentic
+// (decodes, names a channel, signature of the claimed sender over its data in that channel's signing
+// context) and the node is subscribed to the signed channel at the time of the check.
+//@ func (*streamHandler).handlePublish
+//@   noframe
+//@   nosweep nil-deref
+//@   requires s.m != nil
+//@   assert at call (*FloodSub).handleValidMessage: authenticPub(arg2, arg3) && atlock(arg3.Channel in s.m.channels)
+
+// Delivery: every goroutine spawned to call a subscription's handlers is given a subscription that
+// is registered under the packet's signed channel (as decoded when the packet was verified; so it is a
+// subscription to that channel), and a
+// message object carrying the packet's decoded inner message and the sender ID decoded from the packet.
+//@ func (*FloodSub).handleValidMessage
+//@   noframe
+//@   nosweep nil-deref
+//@   requires authenticPub(pkt, pktInner)
+//@   assert at call go.handleValidMessage$1: channelID == old(pktInner.Channel) && atlock((channelID in m.channels) && (ss in m.channels[channelID])) && ss != nil && ss.channelID == channelID
+//@   assert at call go.handleValidMessage$1: msg != nil && msg.pktInner == pktInner && msg.peerID == b58dec(pkt.FromPeerId)
+
+// The spawned goroutine hands exactly that message object to each handler.
+//@ func (*FloodSub).handleValidMessage$1
+//@   noframe
+//@   nosweep nil-deref
+//@   assert at call funcvalue: istype(arg0, ptr(pubmessage.Message)) && unboxed(arg0, ptr(pubmessage.Message)) == msg
